@@ -71,3 +71,13 @@ add('C08', 'property-based testing: metamorphic relation between generated unit 
     'invariant under explicit-unit spellings and a restatement of the whole case in another default unit.',
     'Trusted: the unit table s/ms/us/ns = 1e9/1e6/1e3/1 ns, the reading that time stamps are in the default unit; next/s_next excluded from the units lanes.',
     'DESIGN.md section 5 C08')
+add('C09', 'property-based testing: differential check of a generated decomposition into sub-specifications/constants against the inlined specification on the same monitor (Hypothesis)',
+    'Generated formulas with forced sub-formula reuse are decomposed (nested, repeated references, constants, add_sub_spec or several assertions, declared or undeclared names) and '
+    'run on five monitor set-ups; outputs must equal those of the inlined text.',
+    'Trusted: only the textual substitution done by the harness (vlib/modular.py); dense results compared as step functions.',
+    'DESIGN.md section 5 C09')
+add('C12', 'property-based testing: get_value() of every name after every call against stand-alone specifications of the named sub-formulas and the supplied data (Hypothesis)',
+    'For the decompositions of C09 every sub-specification name, the output name and every input variable is read back after evaluate()/each update() on five monitor set-ups '
+    'and compared with a stand-alone monitor of that sub-formula (pastified if the host was) or with the data supplied.',
+    'Trusted: the stand-alone run of the same rtamt monitor kind (whose values are C01-C05 business); dense input batches are checked for shape only.',
+    'DESIGN.md section 5 C12')
